@@ -1,6 +1,7 @@
 package engine
 
 import (
+	"regexp"
 	"fmt"
 	"go/token"
 	"go/types"
@@ -78,6 +79,9 @@ func Setup(repo string, props []string, extraPkgs []string) (*World, error) {
 		}
 		var b strings.Builder
 		b.Write(src)
+		for _, m := range ghostNameRe.FindAllSubmatch(src, -1) {
+			GhostNamesSeen[string(m[1])] = true
+		}
 		pkg := pkgPathOf(repo, f)
 		if !preludeDone[pkg] {
 			preludeDone[pkg] = true
@@ -176,6 +180,11 @@ func Setup(repo string, props []string, extraPkgs []string) (*World, error) {
 	}
 	return w, nil
 }
+
+// ghost variable names are string literals in the contract files: collected up front so that a callee's
+// `modifies ghost("*")` (and an unknown callee) forgets all of them, not only those read so far.
+var ghostNameRe = regexp.MustCompile(`(?:\bgr|\bgg|verif_ghost_int|verif_ghost_map(?:_upd|_old)?|\bghost)\("([A-Za-z0-9_:]+)"`)
+var GhostNamesSeen = map[string]bool{}
 
 func findTarget(hf *ssa.Function) (*ssa.Function, bool, string) {
 	seenMarker := false
